@@ -390,6 +390,11 @@ class Manager:
     def removeHandler(self, method, event=None):
         names = method.names if event is None else [event]
 
+        if event is None and not names:
+            # catch-all handlers are not filed under an event name
+            self._globals.discard(method)
+            names = ['*'] if method in self._handlers.get('*', ()) else []
+
         for name in names:
             self._handlers[name].remove(method)
             if not self._handlers[name]:
